@@ -8,6 +8,7 @@ pub mod c07;
 pub mod c08;
 pub mod c09;
 pub mod c10;
+pub mod c11;
 pub mod c12;
 pub mod c13;
 pub mod c14;
@@ -32,6 +33,7 @@ pub fn table() -> Vec<(&'static str, PropFn)> {
         ("C08", c08::run_prop as PropFn),
         ("C09", c09::run as PropFn),
         ("C10", c10::run as PropFn),
+        ("C11", c11::run as PropFn),
         ("C12", c12::run as PropFn),
         ("C13", c13::run as PropFn),
         ("C14", c14::run as PropFn),
